@@ -318,7 +318,7 @@ def check(prop, tier, seed):
     ensure_classes()
     build_s = build_harness()
     findings = load_findings()
-    open_ids = {f["id"] for f in findings if f.get("status") == "open" and f.get("property") == prop}
+    open_ids = {f["id"] for f in findings if f.get("status") == "open" and prop in (f.get("property"), f.get("also_property"))}
     violations, known_lines = [], []
     cov = {"states": 0, "transitions": 0, "traces_validated_against_impl": 0, "evaluations": 0,
            "distinct_nontrivial": 0, "samples": [], "models": [], "guards": {}, "drivers": []}
